@@ -181,7 +181,41 @@ def run(res, tier, seed, wd, replay=None):
                        "distinct_nontrivial counts the TLC-enumerated shapes and boundary classes (distinct by construction), random calls not counted")
     res.add_tlc({"distinct": v["states"], "generated": v["states"]})
     res.sample({"kind": "trace excerpt (real code)", "events": read_ndjson(trB)[:8]})
+    selftest(res, trA, wd)
     log("[verdict] %d events of %d calls validated by TLC against LineGrammar/ClientProp: %d flagged rules" % (nev, ntr, len(v["bad"])))
+
+
+def selftest(res, trace_file, wd):
+    ev = read_ndjson(trace_file)[:4000]
+    def good(seg):
+        return any(e["ev"] == "emit" for e in seg) and any(e["ev"] == "end" and e.get("ok") for e in seg) \
+            and any(e["ev"] == "call" and e["tags"] for e in seg)
+    run = first_run(ev, good)
+    if run is None:
+        raise ToolError("client binding self-test: no suitable run")
+    def flip_char(seg):
+        for e in seg:
+            if e["ev"] == "emit":
+                e["text"] = e["text"].replace("|", "!", 1)
+                return seg
+        return None
+    def drop_emit(seg):
+        return [e for e in seg if e["ev"] not in ("emit", "sret")]
+    def swap_tags(seg):
+        for e in seg:
+            if e["ev"] == "call" and e["tags"]:
+                e["tags"] = list(reversed(e["tags"])) + [{"bare": True, "k": "", "v": "extra"}]
+                return seg
+        return None
+    def wrong_result(seg):
+        for e in seg:
+            if e["ev"] == "end" and e.get("ok"):
+                e["text"] = e["text"] + "x"
+                return seg
+        return None
+    selftest_corruptions(res, "ClientTrace", run,
+                         [("one character of the emitted line changed", flip_char), ("the emit removed", drop_emit),
+                          ("the call's tag list changed", swap_tags), ("the returned metric changed", wrong_result)], wd, "client")
 
 
 def do_replay(res, path, wd):
